@@ -40,7 +40,12 @@ Verdict(r) ==
   ELSE IF r.result \in {"panic", "panic-after-accept"} THEN "panic"
   ELSE LET b == r.bytes
            long == r.len > 130                       \* only RSA material is that long; its bytes are not needed by the predicate
-           e == Expected(r.be, r.ver, r.kind, IF long THEN <<48>> ELSE b, r.oracle)
+           e0 == Expected(r.be, r.ver, r.kind, IF long THEN <<48>> ELSE b, r.oracle)
+           \* damaged DER (not a conforming encoding to begin with) that the independent parser still reads but the RustCrypto
+           \* parser does not: the two DER parsers disagree on well-formedness, nothing is demanded (Keys!Expected says the same
+           \* for the opposite disagreement)
+           e == IF e0 = "accept" /\ r.ver = 1 /\ r.kind # "local" /\ r.cls \notin {"valid", "rsa-der", "rsa-pem"} /\ r.oracle.rc_bits = 0
+                THEN "either" ELSE e0
        IN IF e = "accept" /\ ~r.ok THEN "valid-key-rejected"
           ELSE IF e = "reject" /\ r.ok THEN "invalid-key-accepted"
           ELSE IF r.ok /\ ~PostOK(r.ver, r.kind, r.ver # 1 \/ r.kind = "local" \/ r.cls \in {"valid", "rsa-der"}, r.post) THEN "accepted-key-misbehaves"
